@@ -1,0 +1,42 @@
+//go:build verif
+
+package vaxis
+
+// VerifCaps reports the detected capability flags and the few run-time values
+// that start-up and shutdown format into escape sequences.
+func (vx *Vaxis) VerifCaps() (caps map[string]bool, kittyFlags int, userCursorStyle int, appID string) {
+	vx.mu.Lock()
+	defer vx.mu.Unlock()
+	c := vx.caps
+	return map[string]bool{
+		"synchronizedUpdate": c.synchronizedUpdate,
+		"unicodeCore":        c.unicodeCore,
+		"noZWJ":              c.noZWJ,
+		"rgb":                c.rgb,
+		"kittyGraphics":      c.kittyGraphics,
+		"kittyKeyboard":      c.kittyKeyboard,
+		"styledUnderlines":   c.styledUnderlines,
+		"sixels":             c.sixels,
+		"colorThemeUpdates":  c.colorThemeUpdates,
+		"reportSizeChars":    c.reportSizeChars,
+		"reportSizePixels":   c.reportSizePixels,
+		"osc4":               c.osc4,
+		"osc10":              c.osc10,
+		"osc11":              c.osc11,
+		"osc176":             c.osc176,
+		"inBandResize":       c.inBandResize,
+		"explicitWidth":      c.explicitWidth,
+		"disableMouse":       vx.disableMouse,
+	}, vx.kittyFlags, int(vx.userCursorStyle), string(vx.appIDLast)
+}
+
+// VerifSignalKill delivers a termination signal to the input goroutine the way
+// setupSignals' notification would.
+func (vx *Vaxis) VerifSignalKill() {
+	vx.chSigKill <- verifSignal{}
+}
+
+type verifSignal struct{}
+
+func (verifSignal) String() string { return "verif-kill" }
+func (verifSignal) Signal()        {}
